@@ -28,6 +28,7 @@ MARK = 'BASEMSG%dq'
 SENTINEL = 0.4243          # what an author-defined schedule returns when asked for an attempt below 1
 UNIT = 10000
 UNIT2 = 100000000
+FINE_UNIT = 1000000000     # 1e-9 units: raw values of author-defined schedules
 N_OBSERVED = 200           # attempts 1..200 of every grid schedule
 
 
@@ -35,14 +36,22 @@ N_OBSERVED = 200           # attempts 1..200 of every grid schedule
 class AuthorSchedule(object):
     """author-defined credit function: a plain callable (table lookup), records what it was asked"""
 
-    def __init__(self, vals, ty):
-        self.vals, self.ty, self.calls = list(vals), ty, []
+    def __init__(self, vals, ty, unit=UNIT, decay=None):
+        self.vals, self.ty, self.calls, self.unit, self.decay = list(vals), ty, [], unit, decay
 
     def __call__(self, n):
         self.calls.append(n)
         if n < 1:
             return SENTINEL
+        if self.decay is not None:                      # slow decay: any callable is allowed, values with many decimals
+            return (self.decay / 1e5) ** (n - 1)
         v = self.vals[min(n, len(self.vals)) - 1]
+        if self.unit != UNIT:                           # values given in 1e-9 units
+            x = v / float(self.unit)
+            if self.ty == 'numpy':
+                import numpy
+                return numpy.float64(x)
+            return x
         if self.ty == 'int':
             return v // UNIT
         if self.ty == 'numpy':
@@ -70,7 +79,11 @@ def sched_object(s):
     if k == 'reciprocal':
         return ReciprocalCredit()
     if k == 'author':
+        if 'decay' in s:
+            return AuthorSchedule([], 'float', decay=s['decay'])
         return AuthorSchedule(s['vals'], s.get('ty', 'float'))
+    if k == 'authorfine':
+        return AuthorSchedule(s['vals9'], s.get('ty', 'float'), unit=FINE_UNIT)
     if k == 'off':
         return None
     raise ValueError(k)
@@ -136,11 +149,25 @@ def project_base(res):
     return out
 
 
-def project(res, base_res, debug=False):
+def raw_interval(v):
+    """value returned by a schedule -> ({'lo', 'hi'} in 1e-9 units, float value) or (None, None) when out of range"""
+    import math
+    vf = float(v)
+    x = vf * FINE_UNIT
+    if not (-1.0 <= x <= 2.0e9):
+        return None, vf
+    r = int(round(x))
+    if abs(x - r) <= 1e-5:
+        return {'lo': r, 'hi': r}, vf
+    return {'lo': int(math.floor(x)), 'hi': int(math.ceil(x))}, vf
+
+
+def project(res, base_res, debug=False, vf=None):
     """-> (obs for the specification, extras for the drift monitor)"""
     ents, bents = entries_of(res), entries_of(base_res)
     is_list = 'input_list' in res
     obs_e = []
+    rawall = len(ents) == len(bents)       # every grade is base grade * the schedule's unrounded value
     for i, e in enumerate(ents):
         g8, exact = to_fixed(e['grade_decimal'], UNIT2)
         if i < len(bents):
@@ -148,7 +175,12 @@ def project(res, base_res, debug=False):
             kept = all(t in e['msg'] for t in re.findall(r'BASEMSG\d+q', bmsg)) if debug else bmsg in e['msg']
         else:
             kept = False
-        obs_e.append({'g8': g8, 'exact': bool(exact), 'ok': ok_name(e['ok']), 'kept': bool(kept)})
+        g = e['grade_decimal']
+        bg = bents[i]['grade_decimal'] if i < len(bents) else 0
+        obs_e.append({'g8': g8, 'exact': bool(exact), 'ok': ok_name(e['ok']), 'kept': bool(kept),
+                      'lt': bool(g < bg), 'is0': bool(g == 0), 'is1': bool(g == 1)})
+        if vf is None or i >= len(bents) or not (abs(g - bg * vf) <= 1e-12 if bg > 0 else g == 0):
+            rawall = False
     texts = [('entry' if is_list else 'msg', e['msg']) for e in ents]
     base_texts = [e['msg'] for e in bents]
     if is_list:
@@ -164,14 +196,14 @@ def project(res, base_res, debug=False):
             try:
                 note_n = int(m.group(1))
                 p = Decimal(m.group(2)) * 100
-                pexact = (p == int(p)) and abs(p) < 2 * 10 ** 9 and abs(note_n) < 2 * 10 ** 9
+                pexact = (p == int(p)) and abs(p) <= 20000 and abs(note_n) < 2 * 10 ** 9
                 note_p = int(p) if pexact else 0
                 note_n = note_n if abs(note_n) < 2 * 10 ** 9 else 0
             except Exception:
                 pexact, note_p = False, 0
             b = base_texts[j] if j < len(base_texts) else ''
             sep_ok = debug or t == (b + '<br/>\n<br/>\n' if b else '') + m.group(0)
-    obs = {'raised': 'none', 'entries': obs_e, 'notes': notes, 'noteN': note_n, 'noteP': note_p, 'notePexact': bool(pexact)}
+    obs = {'raised': 'none', 'rawall': bool(rawall), 'entries': obs_e, 'notes': notes, 'noteN': note_n, 'noteP': note_p, 'notePexact': bool(pexact)}
     extras = {'where': where, 'sep_ok': sep_ok, 'ptxt': ptxt}
     if debug:                     # the procedure's own debug-log lines (step-level drift monitor)
         log = []
@@ -192,7 +224,7 @@ def project(res, base_res, debug=False):
 def raised_obs(exc):
     from mitxgraders.exceptions import ConfigError
     name = 'ConfigError' if isinstance(exc, ConfigError) else type(exc).__name__
-    return {'raised': name, 'entries': [], 'notes': 0, 'noteN': 0, 'noteP': 0, 'notePexact': True}
+    return {'raised': name, 'rawall': False, 'entries': [], 'notes': 0, 'noteN': 0, 'noteP': 0, 'notePexact': True}
 
 
 def observe_call(g_on, g_off, sobj, inputs, n, debug=False, missing=False):
@@ -200,25 +232,25 @@ def observe_call(g_on, g_off, sobj, inputs, n, debug=False, missing=False):
     base_res = g_off(None, inputs)
     base = project_base(base_res)
     if sobj is None:
-        c4, cexact = UNIT, True
+        v, vf = {'lo': FINE_UNIT, 'hi': FINE_UNIT}, 1.0
     else:
         try:
-            c4, cexact = to_fixed(sobj(eff(n if not missing else 1)), UNIT)
+            v, vf = raw_interval(sobj(eff(n if not missing else 1)))
         except Exception:            # a schedule that raises: the grader call below raises too and is judged as such
-            c4, cexact = 0, True
+            v, vf = {'lo': 0, 'hi': 0}, 0.0
     try:
         res = g_on(None, inputs) if missing else g_on(None, inputs, attempt=n)
     except Exception as e:  # any class; the specification decides
-        return {'base': base, 'c': c4, 'c_exact': cexact, 'obs': raised_obs(e), 'extras': {}}
-    obs, extras = project(res, base_res, debug)
-    return {'base': base, 'c': c4, 'c_exact': cexact, 'obs': obs, 'extras': extras}
+        return {'base': base, 'v': v, 'obs': raised_obs(e), 'extras': {}}
+    obs, extras = project(res, base_res, debug, vf)
+    return {'base': base, 'v': v, 'obs': obs, 'extras': extras}
 
 
 def is_canonical(o, out, form):
     """equality with the documented outcome carried in the TLC state"""
     res = out['res']
     obs = o['obs']
-    if o['c'] != out['c'] or not o['c_exact'] or obs['raised'] != 'none':
+    if o['v'] is None or o['v']['lo'] != out['v9'] or o['v']['hi'] != out['v9'] or obs['raised'] != 'none':
         return False
     if obs['entries'] != res['entries'] or obs['notes'] != res['notes']:
         return False
@@ -302,11 +334,11 @@ def replay_states(states, extra):
             res['keys'].add(('apply', s['k'], form, len(base), n < 1, out['c'] == UNIT, out['c'] == 0, r['notes'],
                              tuple(e['ok'] for e in r['entries'])))
             continue
-        if not o['c_exact']:
-            res['off_drift'].append('schedule %s value for attempt %d is not on the 1e-4 grid; call not judged' % (skey(s), n))
+        if o['v'] is None:
+            res['off_drift'].append('schedule %s value for attempt %d is far outside [0, 1]; call not judged' % (skey(s), n))
             continue
         if len(res['judge']) < 400:
-            res['judge'].append({'ev': 'scaled', 'flag': c['flag'], 'n': n, 'c': o['c'], 'base': base, 'obs': o['obs'],
+            res['judge'].append({'ev': 'scaled', 'flag': c['flag'], 'n': n, 'v': o['v'], 'base': base, 'obs': o['obs'],
                                  'case': case, 'documented_c': out['c'], 'c_cands': out['cCands'], 'extras': o['extras']})
         else:
             res['overflow'] += 1
@@ -334,6 +366,16 @@ def rand_schedule(rng, builtin_only=False):
         return {'k': 'geometric', 'f': rng.random()}
     if r < 0.8 or builtin_only:
         return {'k': 'reciprocal'}
+    r = rng.random()
+    if r < 0.3:          # values on and next to the boundaries of the 4-decimal rounding, in 1e-9 units
+        vals9 = []
+        for _ in range(rng.randint(1, 5)):
+            c4 = rng.choice([UNIT, UNIT, 9999, 0, 1, rng.randint(0, UNIT)])
+            v9 = c4 * 100000 + rng.choice([-50001, -50000, -49999, -40000, -1000, -1, 0, 1, 1000, 40000, 49999, 50000, 50001])
+            vals9.append(min(FINE_UNIT, max(0, v9)))
+        return {'k': 'authorfine', 'vals9': vals9, 'ty': rng.choice(['float', 'numpy'])}
+    if r < 0.4:          # a slow decay written as a formula: values with many decimals, just below 1 for a while
+        return {'k': 'author', 'decay': rng.choice([99999, 99999, 99995, 99990, 99998, 99900, 90000])}
     ty = rng.choice(['float', 'float', 'int', 'numpy'])
     if ty == 'int':
         vals = [rng.choice([0, UNIT]) for _ in range(rng.randint(1, 4))]
@@ -416,9 +458,9 @@ def record_of(case, o):
         return {'id': case['id'], 'ev': 'unjudged', 'why': 'base grade not on the 1e-4 grid', 'case': case}
     if case.get('missing'):
         return {'id': case['id'], 'ev': 'missing', 'raised': o['obs']['raised'], 'case': case}
-    if not o['c_exact']:
-        return {'id': case['id'], 'ev': 'unjudged', 'why': 'schedule value not on the 1e-4 grid', 'case': case}
-    rec = {'id': case['id'], 'ev': 'scaled', 'flag': case['flag'], 'n': case['n'], 'c': o['c'], 'base': o['base'],
+    if o['v'] is None:
+        return {'id': case['id'], 'ev': 'unjudged', 'why': 'schedule value far outside [0, 1]', 'case': case}
+    rec = {'id': case['id'], 'ev': 'scaled', 'flag': case['flag'], 'n': case['n'], 'v': o['v'], 'base': o['base'],
            'obs': o['obs'], 'case': case}
     if 'log' in o.get('extras', {}):
         rec['log'] = o['extras']['log']
@@ -485,8 +527,8 @@ def observe_docs(items, extra):
 def strip(rec):
     """the part of a record TLC needs (and can read)"""
     keep = {'credit': ('id', 'ev', 'lo8', 'first_one', 'vals8'), 'formula': ('id', 'ev', 's', 'vals'),
-            'scaled': ('id', 'ev', 'flag', 'n', 'c', 'base', 'obs'), 'missing': ('id', 'ev', 'raised'),
-            'steplog': ('id', 'ev', 'n', 'c', 'log')}[rec['ev']]
+            'scaled': ('id', 'ev', 'flag', 'n', 'v', 'base', 'obs'), 'missing': ('id', 'ev', 'raised'),
+            'steplog': ('id', 'ev', 'n', 'v', 'log')}[rec['ev']]
     r = {k: rec[k] for k in keep}
     if rec['ev'] == 'formula':
         r['s'] = {k: v for k, v in rec['s'].items() if k != 'ty'}
@@ -508,7 +550,7 @@ def judge(ctx, recs, name):
         ctx.violation(sig, 'schedule %s: %s' % (skey(r['s']), r['error']))
     todo = [r for r in recs if r['ev'] in ('credit', 'formula', 'scaled', 'missing') and not r.get('error')]
     # step-level monitor: one extra record per debug call (ids are spaced by the callers)
-    todo += [{'id': r['id'] + 500000000, 'ev': 'steplog', 'n': r['n'], 'c': r['c'], 'log': r['log'], 'case': r['case']}
+    todo += [{'id': r['id'] + 500000000, 'ev': 'steplog', 'n': r['n'], 'v': r['v'], 'log': r['log'], 'case': r['case']}
              for r in recs if r['ev'] == 'scaled' and 'log' in r and r['obs']['raised'] == 'none']
     rej = traces.validate(ctx, 'graders/AttemptCreditTrace.tla', 'graders/AttemptCreditTrace.cfg',
                           [strip(r) for r in todo], name=name)
@@ -526,7 +568,7 @@ def judge(ctx, recs, name):
             n_steplog += 1
             if n_steplog == 1:
                 ctx.note_drift('debug log of a call with attempt=%s, credit %s reads %s: not the step model AttemptCreditSteps (%s)'
-                               % (r['n'], r['c'] / 1e4, r['log'], json.dumps(r['case'], sort_keys=True)))
+                               % (r['n'], r['v']['lo'] / 1e9, r['log'], json.dumps(r['case'], sort_keys=True)))
         elif r['ev'] == 'formula':
             n = int(clause.rsplit('_', 1)[1]) if clause.startswith('formula_at_attempt_') else 0
             n_formula += 1
@@ -544,10 +586,10 @@ def judge(ctx, recs, name):
             ctx.violation(sig, 'attempt-based credit on, no attempt passed: expected ConfigError, observed %s (%s)' % (
                 r['raised'], json.dumps(r['case'], sort_keys=True)))
         else:
-            sig = {'class': 'apply-' + clause, 'clause': clause, 'case': r['case'], 'credit_1e4': r['c'],
+            sig = {'class': 'apply-' + clause, 'clause': clause, 'case': r['case'], 'schedule_value_1e9': r['v'],
                    'base': r['base'], 'observed': r['obs']}
-            ctx.violation(sig, 'grader call with attempt=%s, credit %s, base %s: %s; observed %s (%s)' % (
-                r.get('n'), r['c'] / 1e4, [e['g'] / 1e4 for e in r['base']], clause,
+            ctx.violation(sig, 'grader call with attempt=%s, schedule value %s, base %s: %s; observed %s (%s)' % (
+                r.get('n'), r['v']['lo'] / 1e9, [e['g'] / 1e4 for e in r['base']], clause,
                 json.dumps(r['obs'], sort_keys=True), json.dumps(r['case'], sort_keys=True)))
     if n_steplog > 1 or n_formula > 3:
         ctx.note_drift('... %d debug-log and %d formula deviations in total in this batch' % (n_steplog, n_formula))
@@ -605,13 +647,13 @@ def run(ctx):
         rej = judge(ctx, on, 'differs') if on else {}
         accepted = [r for r in on if r['id'] not in rej]
         # the schedule resolved an exact rounding tie of its formula the other way (e.g. 1/160 = 0.00625 -> 0.0063)
-        ties = [r for r in accepted if r['ev'] == 'scaled' and r['c'] != r['documented_c'] and r['c'] in r['c_cands']]
+        ties = [r for r in accepted if r['ev'] == 'scaled' and len(r['c_cands']) > 1]
         totals['sched_ties'] += len(ties)
         accepted = [r for r in accepted if r not in ties]
         if accepted:
             r = accepted[0]
             ctx.note_drift('%d replayed call(s) differ from the documented result but are accepted by the property, e.g. '
-                           'attempt %s credit %s base %s -> %s %s' % (len(accepted), r.get('n'), r.get('c'), r.get('base'),
+                           'attempt %s credit %s base %s -> %s %s' % (len(accepted), r.get('n'), r.get('v'), r.get('base'),
                                                                       json.dumps(r.get('obs'), sort_keys=True), r.get('extras')))
         if off:
             ctx.note_drift('%d call(s) with attempt_based_credit=None and an attempt number differ from the call without '
@@ -645,7 +687,7 @@ def run(ctx):
     for r in call_recs:
         if r['ev'] == 'scaled':
             o = r['obs']
-            ctx.nontrivial.add(('trace', r['case']['s']['k'], r['case']['form'], len(r['base']), r['n'] < 1, r['c'] in (0, UNIT),
+            ctx.nontrivial.add(('trace', r['case']['s']['k'], r['case']['form'], len(r['base']), r['n'] < 1, r['v']['lo'] in (0, FINE_UNIT), r['v']['lo'] != r['v']['hi'] or r['v']['lo'] % 100000 != 0,
                                 o['notes'], r['case'].get('debug', False)))
     for r in [x for x in call_recs if x['ev'] == 'scaled' and x['obs']['notes'] == 1][:1] + [recs[0]]:
         ctx.sample({'trace_record': strip(r) if r['ev'] in ('credit', 'scaled') else r})
@@ -665,8 +707,9 @@ def run(ctx):
     except Exception as e:
         ctx.extra['outside_quantified_domain'] = {'probe failed': repr(e)}
     ctx.assumptions += [
-        'author-defined schedules return values with at most 4 decimals (the grader rounds the value to 4 decimals before '
-        'use; the statement speaks of "the schedule\'s value")',
+        'an author-defined schedule value with more than 4 decimals may be used as it is or rounded to 4 decimals (the grader '
+        'rounds; the statement speaks of "the schedule\'s value"): both readings are accepted, and "some grade was reduced" '
+        'is decided on the grades actually returned',
         'LinearCredit minimum_credit lies on the 1e-4 grid (a minimum with more decimals is itself rounded to 4 decimals '
         'by the schedule and can then lie below the configured minimum by < 5e-5)',
         'base results are self-consistent (ok computed from the grade), grades on the 1e-4 grid',
